@@ -39,7 +39,7 @@ DEFAULT_PROFILE = dict(
     union_constraints=True,
     inline_depth=2,
     neg_defaults=False,
-    inline_enum_explicit=False,
+    inline_enum_explicit=True,
     bit_trailing_one=False,   # BIT STRING values always end in a 1 bit (KF: UPER/OER drop trailing zero bits)
     real_decimal15=False,     # REAL values exactly representable in <= 15 significant decimal digits (BASIC/CANONICAL XER text)
     wide_plain=False,         # BMPString/UniversalString values restricted to ASCII letters/digits (KF: XER)
